@@ -264,11 +264,11 @@ func e7Case(seed uint64, n int, parent string, race bool) Case {
 func init() {
 	register("E7", func(tier string, seed uint64) []Case {
 		var cases []Case
-		n := tierPick(tier, 300, 30000)
+		n := tierPick(tier, 300, 100000)
 		for i := 0; i < n; i++ {
 			cases = append(cases, e7Case(seed, i, "rootkit", i%8 == 7))
 		}
-		m := tierPick(tier, 60, 5000)
+		m := tierPick(tier, 60, 20000)
 		for i := 0; i < m; i++ {
 			cases = append(cases, e7Case(seed, i, "controller", false))
 		}
